@@ -1,3 +1,4 @@
+pub mod big;
 pub mod explore;
 pub mod oracle;
 pub mod plans;
@@ -40,5 +41,30 @@ pub fn trace(desc: impl FnOnce() -> String) {
         buf[..s.len()].copy_from_slice(s.as_bytes());
         buf[4095] = b'\n';
         let _ = f.write_at(&buf, 0);
+    }
+}
+
+/// 64-bit counters for targets without 64-bit atomics (32-bit PowerPC, hosted by Miri).
+#[cfg(target_has_atomic = "64")]
+pub use std::sync::atomic::AtomicU64 as Counter64;
+#[cfg(not(target_has_atomic = "64"))]
+#[derive(Default)]
+pub struct Counter64(std::sync::Mutex<u64>);
+#[cfg(not(target_has_atomic = "64"))]
+impl Counter64 {
+    pub fn new(v: u64) -> Self {
+        Counter64(std::sync::Mutex::new(v))
+    }
+    pub fn load(&self, _: std::sync::atomic::Ordering) -> u64 {
+        *self.0.lock().unwrap()
+    }
+    pub fn into_inner(self) -> u64 {
+        self.0.into_inner().unwrap()
+    }
+    pub fn fetch_add(&self, n: u64, _: std::sync::atomic::Ordering) -> u64 {
+        let mut g = self.0.lock().unwrap();
+        let old = *g;
+        *g = old.wrapping_add(n);
+        old
     }
 }
